@@ -62,7 +62,11 @@ READ_PATHS = ("index", "cindex", "at", "cat", "front", "cfront", "back", "cback"
 WRITE_PATHS = ("index", "at", "front", "back", "iter", "riter")
 OBSERVERS = {"At", "Read", "Extract", "IterRel", "Feature", "MaxSize", "Rel"}         # (Algo writes)
 ALL_OPS = ["CtorDefault", "CtorN", "CtorNV", "CtorNO", "CtorIL", "CtorCopy", "CopyAssign", "CtorMove", "MoveAssign",
-           "Resize", "ResizeV", "ResizeO", "At", "Read", "Write", "WriteUnder", "Extract", "IterRel", "ProxySwap", "MaxSize", "Rel", "Algo"]
+           "Resize", "ResizeV", "ResizeO", "At", "Read", "Write", "WriteUnder", "Extract", "IterRel", "ProxySwap", "MaxSize", "Rel", "Algo",
+           # round 4: arguments that are element proxies (aliasing the container under modification), cross-container assignment
+           "ResizeFrom", "CtorFrom", "XAssign", "XCopy"]
+XOPS = ("XAssign", "XCopy")
+XPADS = [0, 0, 0, 1, 7, 8, 9, 63, 64, 65, 130]
 # standard algorithms over the iterators: which compile-probe bit each needs (harness/parseq/probe_algo.cpp)
 ALGO_BIT = {"copy": 1, "copybwd": 8, "reverse": 2, "rotate": 2, "sort": 4}
 ALGO_WHAT = {1: "std::copy from const iterators (proxy = const proxy)", 8: "std::copy_backward (proxy = proxy of the same type)",
@@ -127,11 +131,23 @@ def probe_features(ctx):
             if ok:
                 masks[flav] |= bit
     feats["algo_opt"], feats["algo_cplx"] = masks[1], masks[2]
+
+    # is `proxy = proxy of the sibling container type` (XAssign / XCopy) well-formed?
+    def xas(flav):
+        rc, out = compile_probe(os.path.join(HDIR, "probe_xassign.cpp"), "FLAV=%d" % flav)
+        return flav, rc == 0
+    with ThreadPoolExecutor(max_workers=2) as ex:
+        for flav, ok in ex.map(xas, (1, 2)):
+            feats["xas_opt" if flav == 1 else "xas_cplx"] = int(ok)
     return feats
 
 
 def algo_mask(feats, key):
     return feats["algo_opt"] if TYPES[key][0] == "optional" else feats["algo_cplx"]
+
+
+def xassign_ok(feats, key):
+    return bool(feats.get("xas_opt") if TYPES[key][0] == "optional" else feats.get("xas_cplx"))
 
 
 def type_flags(feats, key):
@@ -154,6 +170,7 @@ def build_driver(ctx, feats, flavour="asan", group=1):
     if feats["cas"]:
         flags.append("-DPARSEQ_CPLX_ASSIGN")
     flags += ["-DPARSEQ_ALGO_OPT=%d" % feats.get("algo_opt", 0), "-DPARSEQ_ALGO_CPLX=%d" % feats.get("algo_cplx", 0)]
+    flags += ["-DPARSEQ_XASSIGN_OPT=%d" % feats.get("xas_opt", 0), "-DPARSEQ_XASSIGN_CPLX=%d" % (feats.get("xas_cplx", 0) if feats["cas"] else 0)]
     drv = os.path.join(ctx.work, "parseq_driver_%s_g%d" % (flavour, group))
     core.build(ctx, os.path.join(HDIR, "driver.cpp"), drv, flags=flags, asan=asan, cxx=cxx)
     return drv
@@ -175,6 +192,10 @@ def supported(feats, key, ev):
         return False
     if ev["op"] == "Algo" and not (fwd and cas and (algo_mask(feats, key) & ALGO_BIT[a["alg"]])):
         return False
+    if not fwd and a.get("spath") in ("iter", "citer"):
+        return False
+    if ev["op"] in XOPS and not (cas and xassign_ok(feats, key) and (fwd or ev["op"] != "XCopy")):
+        return False
     return True
 
 
@@ -195,6 +216,7 @@ class Gen:
         self.nmul = 0
         m = algo_mask(feats, key) if (self.fwd and self.cas) else 0
         self.algs = [a for a, b in sorted(ALGO_BIT.items()) if m & b]
+        self.xas = bool(self.cas and xassign_ok(feats, key))
 
     def val(self):
         r = self.r
@@ -294,7 +316,41 @@ class Gen:
                     return self.ev("ResizeV", k, n=m, v=self.value_arg())
                 ck = r.choice(["val", "ref", "conv"])
                 return self.ev("ResizeO", k, n=m, e=self.conv_elem() if ck == "conv" else self.elem(), ck=ck)
-            if c < 0.38:
+            if 0.30 <= c < 0.33 and self.vec:
+                # resize(m, <element proxy>): of the vector itself (aliasing) or of the other object
+                s = k if r.random() < 0.7 else o
+                if self.size[s] > 0:
+                    path, nav, j = self.path_nav(READ_PATHS, self.size[s])
+                    m = self.pick_size(k); self.size[k] = m
+                    return self.ev("ResizeFrom", k, n=m, s=s + 1, path=path, nav=nav, j=j)
+                continue
+            if 0.33 <= c < 0.34:
+                if self.size[o] > 0:
+                    path, nav, j = self.path_nav(READ_PATHS, self.size[o])
+                    m = self.pick_size(k); self.size[k] = m
+                    return self.ev("CtorFrom", k, n=m, path=path, nav=nav, j=j)
+                continue
+            if 0.34 <= c < 0.38 and self.xas:
+                no = self.size[o]
+                pad = r.choice(XPADS) if self.vec else 0
+                if r.random() < 0.6:
+                    if n > 0 and no > 0:
+                        path, nav, i = self.path_nav(WRITE_PATHS, n)
+                        ps = [p for p in READ_PATHS if (self.fwd or p not in ("iter", "citer")) and not (pad and "front" in p)]
+                        spath = r.choice(ps)
+                        j = 0 if "front" in spath else no - 1 if "back" in spath else r.choice([0, no - 1, r.randrange(no), min(no - 1, 63), min(no - 1, 64)])
+                        snav = r.choice(NAVS) if spath in ITER_PATHS else "na"
+                        if pad + no > 24 and snav in ("inc", "dec", "postinc"):
+                            snav = r.choice(("plus", "minus", "sub", "arrow", "peq", "meq"))
+                        return self.ev("XAssign", k, path=path, nav=nav, i=i, pad=pad, spath=spath, snav=snav, j=j, mv=r.randrange(2))
+                elif self.fwd:
+                    pos = lambda hi: r.choice([0, hi, r.randrange(hi + 1), min(hi, 63), min(hi, 64), min(hi, 65), max(hi - 1, 0)])
+                    i, j = sorted([pos(no), pos(no)])
+                    if j - i > n:
+                        j = i + n
+                    return self.ev("XCopy", k, pad=pad, i=i, j=j, m=r.choice([0, n - (j - i), r.randrange(n - (j - i) + 1)]), dir=r.choice(["fwd", "rev"]))
+                continue
+            if c < 0.43:
                 i = r.choice([0, max(n - 1, 0), n, n + 1, r.randrange(0, n + 2), 64, 63])
                 h = 1 if r.random() < 0.15 else 0
                 return self.ev("At", k, c=r.choice(["m", "c"]), i=r.randrange(0, 3) if h else i, h=h)
@@ -837,7 +893,11 @@ def finish(ctx, q, caps, extra=""):
                      "constructors taking a size are only called with the container's own size for the array flavours (a foreign size is probed, advisory)",
                      "standard algorithms over the iterators (Algo: copy, copy_backward exact; reverse, rotate, sort as permutations of whole pairs) are "
                      "actions of L1 and model-checked; only those that compile with the headers under test are bound to the code (see "
-                     "std_algorithms_not_accepting_the_iterators)"],
+                     "std_algorithms_not_accepting_the_iterators)",
+                     "round 4: value arguments that are element proxies (ResizeFrom: of the vector being resized - aliasing - or of the other object; CtorFrom) "
+                     "and element assignment across containers (XAssign / XCopy: the source is a sibling container of another value type built by the harness "
+                     "from the other object behind `pad` default elements, storage by storage) are L1 actions; XAssign / XCopy are bound to the tree only where "
+                     "`proxy = proxy of the sibling type` compiles (probe_xassign.cpp)"],
         exhaustive=False)
 
 
@@ -865,6 +925,11 @@ def run(ctx):
             print("NOTE property=C11 the iterators of the %s sequences cannot be handed to: %s (does not compile with these headers: the proxy "
                   "references have no swap for rvalues / no assignment from a proxy of the same type / no conversion to value_type); the "
                   "corresponding Algo actions of ParSeq.tla are model-checked but not bound to this tree" % (fl, "; ".join(lst)))
+    ctx.notes["features"]["proxy = proxy of the sibling container type compiles (optional, complex)"] = [feats["xas_opt"], feats["xas_cplx"]]
+    for fl, kx in (("optional", "xas_opt"), ("complex", "xas_cplx")):
+        if not feats[kx]:
+            print("NOTE property=C11 `dst[i] = src[j]` with src an element of a %s sequence of another value type does not compile with these "
+                  "headers; the XAssign / XCopy actions of ParSeq.tla are model-checked but not bound to this tree for that flavour" % fl)
     flavours = ["asan"] if ONLY_RND else ["asan", "o2ndebug"] + ([] if q else ["clang", "o0"])
     # (flavour, group): the secondary builds of the quick tier only cover the six original instantiations
     jobs = [(fl, g) for fl in flavours for g in GROUPS if not (q and fl != "asan" and g >= 2) and not (g == 3 and fl not in ("asan", "o2ndebug"))]
